@@ -65,6 +65,10 @@ var alphabet = []symbol{
 	// genuine in every respect, but sealed under the key of the PREVIOUS exchange of this connection (one that was proved
 	// and then abandoned by a new start): the proof belongs to another exchange
 	{"exchange", "genuine-for-the-previous-exchange"},
+	// what a peer without the code can compute when the accessory's session holds a secret of N zero bytes (a buffer that was
+	// allocated and never filled): sealed under the all-zero key or under the key derived from that secret, signed over it
+	{"exchange", "zero-key+secret-of-32-zero-bytes"}, {"exchange", "zero-key+secret-of-64-zero-bytes"}, {"exchange", "zero-key+secret-of-384-zero-bytes"},
+	{"exchange", "hkdf-of-32-zero-bytes"}, {"exchange", "hkdf-of-64-zero-bytes"}, {"exchange", "hkdf-of-384-zero-bytes"},
 	{"step", "0"}, {"step", "7"}, {"step", "255"}, {"method", "1"}, {"method", "3"}, {"method", "4"},
 	// a complete, consistent SRP run with a password anybody can know (see publicGuesses); the key exchange that follows is
 	// sealed under the key of THAT run
@@ -320,6 +324,16 @@ func build(w *world, p *peer, s symbol) built {
 			e := &refctl.Enc{}
 			b.name = "admin-" + me.ID
 			b.msg = refctl.SetupM5(encKey, e.Bytes(refctl.TagIdentifier, []byte(b.name)).Bytes(refctl.TagPublicKey, me.LTPK).Bytes(refctl.TagSignature, ed25519.Sign(me.LTSK, info)).B)
+			return b
+		case "zero-key+secret-of-32-zero-bytes", "zero-key+secret-of-64-zero-bytes", "zero-key+secret-of-384-zero-bytes", "hkdf-of-32-zero-bytes", "hkdf-of-64-zero-bytes", "hkdf-of-384-zero-bytes":
+			n := 0
+			fmt.Sscanf(s.Var[strings.Index(s.Var, "of-")+3:], "%d", &n)
+			guess := make([]byte, n)
+			key := [32]byte{}
+			if strings.HasPrefix(s.Var, "hkdf") {
+				key = refctl.SetupEncKey(guess)
+			}
+			b.msg = refctl.SetupM5(key, refctl.SetupM5Plain(guess, me.ID, me.LTPK, me.LTSK))
 			return b
 		case "genuine-for-the-previous-exchange":
 			pk := make([]byte, 64) // (no previous proved exchange: a key nobody agreed on)
@@ -645,7 +659,7 @@ func randomCode(rnd *rand.Rand) string {
 func main() {
 	run = vf.Start("C02", "exploration")
 	r := run
-	r.SetRule("a history = (setup code, controller identities, 1 or 2 connections sharing one database, sequence over the pair-setup alphabet of 38 symbols (6 of them complete SRP runs with a password anybody can know: accessory id / name, empty, the SRP user name, the code's digits, the library's default pin)); every sequence up to length 2 (quick) / 3 (thorough) over a 16-symbol core alphabet, " +
+	r.SetRule("a history = (setup code, controller identities, 1 or 2 connections sharing one database, sequence over the pair-setup alphabet of 44 symbols (6 of them complete SRP runs with a password anybody can know: accessory id / name, empty, the SRP user name, the code's digits, the library's default pin)); every sequence up to length 2 (quick) / 3 (thorough) over a 16-symbol core alphabet, " +
 		"the known critical prefixes followed by every symbol, and random sequences of length 3..8; after every message the stored entities are compared with the previous snapshot; non-trivial = distinct (harness, connections, sequence)")
 	r.Assume("the monitor builds every message itself and therefore knows whether the connection proved knowledge of the setup code; crypto/ed25519, x/crypto AEAD are correct")
 	r.Watchdog(time.Duration(r.Pick(20, 90)) * time.Minute)
@@ -753,6 +767,8 @@ func main() {
 		{{"start", ""}, {"exchange", "hkdf-of-empty-secret"}},
 		{{"start", ""}, {"verify", "FAIL"}, {"exchange", "zero-key"}},
 		{{"start", ""}, {"verify", "FAIL"}, {"exchange", "hkdf-of-empty-secret"}},
+		{{"start", ""}, {"verify", "FAIL"}, {"exchange", "zero-key+secret-of-64-zero-bytes"}},
+		{{"start", ""}, {"verify", "FAIL"}, {"exchange", "hkdf-of-64-zero-bytes"}},
 		{{"start", ""}, {"verify", "right"}, {"exchange", "genuine"}},
 	}
 	for _, k := range repeats {
